@@ -12,7 +12,7 @@ import numpy as np
 from rv import gen, oracle
 
 PLAN = {
-    "quick": {"cases": 420, "hashseeds": 3, "shards": 5, "timeout": 420, "min_nontrivial": 100},
+    "quick": {"cases": 840, "hashseeds": 3, "shards": 5, "timeout": 420, "min_nontrivial": 150},
     "thorough": {"cases": 6000, "hashseeds": 12, "shards": 4, "timeout": 3000, "min_nontrivial": 1500,
                  "backends": ["numpy", "torch"], "torch_cases": 600, "torch_shards": 2, "torch_hashseeds": 1},
 }
@@ -85,12 +85,71 @@ def gen_query(rng, bn, nodes, J, allow_virtual=True, max_q=3, max_e=3):
     return query, ev, virt
 
 
+def add_twins(rng, bn, max_joint=4096):
+    """Redundant "sensor" nodes: a copy of an existing non-root node with the same parents (same declared
+    order), same states and the same table.  Observing a node and its twin in the same state makes two
+    CPDs reduce to value-identical factors over the same scope - equal factors must both be used."""
+    cands = [v for v in bn["nodes"] if bn["cpds"][v]["parents"] and bn["card"][v] >= 2]
+    out = []
+    rng.shuffle(cands)
+    for v in cands[:rng.choice([1, 1, 2])]:
+        tot = bn["card"][v]
+        for x in bn["nodes"]:
+            tot *= bn["card"][x]
+        if tot > max_joint or len(bn["nodes"]) >= 8:
+            break
+        t = f"{v}tw{len(out)}" if isinstance(v, str) else (v, "tw")
+        bn["nodes"].append(t)
+        bn["card"][t] = bn["card"][v]
+        bn["states"][t] = list(bn["states"][v])
+        pa = list(bn["cpds"][v]["parents"])
+        bn["cpds"][t] = {"parents": pa, "table": [list(r) for r in bn["cpds"][v]["table"]]}
+        for p in pa:
+            bn["edges"].append([p, t])
+        out.append((v, t))
+    return out
+
+
+def force_twin_evidence(rng, bn, nodes, J, twins, query, ev, virt):
+    """Put hard evidence with the same state on a node and its twin whenever that has positive probability."""
+    import numpy as np
+    vvars = {d["var"] for d in virt}
+    for (v, t) in twins:
+        if v in query or t in query or v in vvars or t in vvars:
+            if len(nodes) - len(query) >= 2 and rng.random() < 0.7:
+                for x in (v, t):
+                    if x in query and len(query) > 1:
+                        query.remove(x)
+            if v in query or t in query or v in vvars or t in vvars:
+                continue
+        W = np.array(J, dtype=float)
+        for d in virt:
+            shp = [1] * W.ndim
+            shp[nodes.index(d["var"])] = len(d["vec"])
+            W = W * np.array(d["vec"]).reshape(shp)
+        base = {k: s for k, s in ev.items() if k not in (v, t)}
+        ok = []
+        for s_ in range(bn["card"][v]):
+            sl = [slice(None)] * len(nodes)
+            for k, s0 in list(base.items()) + [(v, s_), (t, s_)]:
+                sl[nodes.index(k)] = s0
+            if W[tuple(sl)].sum() > 1e-12:
+                ok.append(s_)
+        if ok:
+            s_ = rng.choice(ok)
+            ev[v] = s_
+            ev[t] = s_
+
+
 def gen_case(seed, idx, tier):
     rng = gen.rng_for("C01", seed, idx)
     use_virtual = rng.random() < 0.4
     bn = gen.rand_bn_spec(rng, n_range=(1, 7), max_joint=4096)
+    twins = add_twins(rng, bn) if rng.random() < 0.3 else []
     nodes, J = oracle.joint_table(bn)
     query, ev, virt = gen_query(rng, bn, nodes, J, allow_virtual=use_virtual)
+    if twins:
+        force_twin_evidence(rng, bn, nodes, J, twins, query, ev, virt)
     elim = [v for v in nodes if v not in query and v not in ev]
     perms = []
     for _ in range(2):
@@ -153,6 +212,8 @@ def run_case(spec, ctx):
         likes[d["var"]] = np.array(d["vec"]) * likes.get(d["var"], 1.0)
     _, post = oracle.posterior(nodes, J, query, ev, likes)
     ctx.nontrivial = len(nodes) >= 2 and len(bn["edges"]) >= 1 and (len(ev) > 0 or len(query) < len(nodes))
+    if any(isinstance(n, str) and "tw" in n for n in ev):
+        ctx.feature("twin-evidence")
     for f in ("virtual" if virt else None, "evidence" if ev else None, f"kind:{bn['kind']}",
               "card1" if 1 in card.values() else None):
         if f:
